@@ -44,8 +44,14 @@ FUNCTIONS = [
 class S:
     """the symbolic state with handles for the abstraction function"""
 
-    def __init__(self, ctx):
+    PROJECTS = ('proj', 'proj2', 'proj3')
+    USERS = ('user', 'user2')
+    OWNERS = {1: ('proj', 'user', 'INSTANCE'), 2: ('proj', 'user2', None)}
+
+    def __init__(self, ctx, owners=None):
         self.ctx = ctx
+        self.owner = dict(self.OWNERS)
+        self.owner.update(owners or {})
         w = self.w = World(ctx)
         for rc in RCS:
             w.rc(rc)
@@ -53,11 +59,11 @@ class S:
             w.trait(t)
         w.agg(1)
         w.agg(2)
-        w.project('proj')
-        w.user('user')
-        w.project('proj2')
-        w.user('user2')
-        w.consumer_type('INSTANCE')
+        # more projects than users: surrogate ids of the two tables do not
+        # line up
+        pid = {n: w.project(n) for n in self.PROJECTS}
+        uid = {n: w.user(n) for n in self.USERS}
+        ctid = {'INSTANCE': w.consumer_type('INSTANCE'), None: None}
         w.provider(1)
         w.provider(2, parent=1)
         self.inv = {}
@@ -75,11 +81,11 @@ class S:
             used = w.allocation(c, p, rc, present=pres)
             self.alloc[(c, p, rc)] = (pres, used)
         self.cons = {}
-        for c, (proj, user, ct) in {1: (1, 1, 1), 2: (1, 2, None)}.items():
+        for c, (proj, user, ct) in self.owner.items():
             bits = [v[0] for k, v in self.alloc.items() if k[0] == c]
             pres = any(bits) if conc else Or(*bits)
-            self.cons[c] = w.consumer(c, present=pres, project=proj,
-                                      user=user, ctype=ct)
+            self.cons[c] = w.consumer(c, present=pres, project=pid[proj],
+                                      user=uid[user], ctype=ctid[ct])
 
     def close(self):
         self.w.close()
@@ -279,10 +285,10 @@ def read_allocations(ctx, s):
                                 'provider generation in consumer view')
         cons = s.cons[c]
         for key, since, want in (
-                ('project_id', 12, 'proj'),
-                ('user_id', 12, 'user' if c == 1 else 'user2'),
+                ('project_id', 12, s.owner[c][0]),
+                ('user_id', 12, s.owner[c][1]),
                 ('consumer_generation', 28, cons['generation']),
-                ('consumer_type', 38, 'INSTANCE' if c == 1 else 'unknown')):
+                ('consumer_type', 38, s.owner[c][2] or 'unknown')):
             presence(ctx, 'consumer-view', key in js,
                      z3.And(zbool(cons['present']), m >= since),
                      '%s of consumer c%d (from 1.%d)' % (key, c, since))
@@ -341,11 +347,16 @@ def _any(s, rc, consumers):
 
 
 def read_totals(ctx, s):
-    """c1 = (proj, user, INSTANCE), c2 = (proj, user2, no type)"""
-    for q, members in (('project_id=proj', (1, 2)),
-                       ('project_id=proj&user_id=user', (1,)),
-                       ('project_id=proj&user_id=user2', (2,)),
-                       ('project_id=proj2', ())):
+    """usage totals per project / user / consumer type for the ownership of
+    the two consumers chosen by the family"""
+    own = s.owner
+    scopes = [('project_id=%s' % pj, [c for c in own if own[c][0] == pj])
+              for pj in S.PROJECTS]
+    scopes += [('project_id=%s&user_id=%s' % (pj, us),
+                [c for c in own if own[c][:2] == (pj, us)])
+               for pj, us in (('proj', 'user'), ('proj', 'user2'),
+                              ('proj3', 'user2'), ('proj2', 'user'))]
+    for q, members in scopes:
         r = app.call('GET', '/usages?' + q, version='1.36')
         js = r.json['usages']
         for rc in RCS:
@@ -356,39 +367,56 @@ def read_totals(ctx, s):
                                 _tot(s, rc, members),
                                 'total %s of %s' % (rc, q))
     # 1.38: grouped by consumer type with consumer counts; filters
-    for q, groups in (
-            ('project_id=proj', {'INSTANCE': (1,), 'unknown': (2,)}),
-            ('project_id=proj&consumer_type=unknown', {'unknown': (2,)}),
-            ('project_id=proj&consumer_type=INSTANCE', {'INSTANCE': (1,)}),
-            ('project_id=proj&consumer_type=all', {'all': (1, 2)}),
-            ('project_id=proj&user_id=user2&consumer_type=unknown',
-             {'unknown': (2,)}),
-            ('project_id=proj&user_id=user&consumer_type=unknown', {})):
-        r = app.call('GET', '/usages?' + q, version='1.38')
-        if r.status != 200:
-            runner.violation(ctx, 'read-status', '%s: %d' % (q, r.status))
-            continue
-        js = r.json['usages']
-        for g in ('INSTANCE', 'unknown', 'all'):
-            members = groups.get(g, ())
-            exists = Or(*[s.cons[c]['present'] for c in members]) \
-                if members else False
-            presence(ctx, 'type-usage', g in js, exists,
-                     'group %s of %s' % (g, q))
-            if g not in js:
+    tname = {c: own[c][2] or 'unknown' for c in own}
+    for q, members in scopes[:5]:
+        for flt in (None, 'unknown', 'INSTANCE', 'all'):
+            if flt is None:
+                groups = {}
+                for c in members:
+                    groups.setdefault(tname[c], []).append(c)
+            elif flt == 'all':
+                groups = {'all': members}
+            else:
+                groups = {flt: [c for c in members if tname[c] == flt]}
+            qq = q + ('&consumer_type=' + flt if flt else '')
+            r = app.call('GET', '/usages?' + qq, version='1.38')
+            if r.status != 200:
+                runner.violation(ctx, 'read-status', '%s: %d' % (
+                    qq, r.status))
                 continue
-            cnt = z3.Sum(*([z3.If(zbool(s.cons[c]['present']), 1, 0)
-                            for c in members] + [z3.IntVal(0)]))
-            eq_or_violation(ctx, 'type-usage', js[g]['consumer_count'], cnt,
-                            'consumer_count of %s in %s' % (g, q))
-            for rc in RCS:
-                presence(ctx, 'type-usage', rc in js[g],
-                         _any(s, rc, members), '%s in group %s of %s' % (
-                             rc, g, q))
-                if rc in js[g]:
-                    eq_or_violation(ctx, 'type-usage', js[g][rc],
-                                    _tot(s, rc, members),
-                                    'total %s of group %s in %s' % (rc, g, q))
+            js = r.json['usages']
+            for g in ('INSTANCE', 'unknown', 'all'):
+                mem = groups.get(g, ())
+                exists = Or(*[s.cons[c]['present'] for c in mem]) \
+                    if mem else False
+                presence(ctx, 'type-usage', g in js, exists,
+                         'group %s of %s' % (g, qq))
+                if g not in js:
+                    continue
+                cnt = z3.Sum(*([z3.If(zbool(s.cons[c]['present']), 1, 0)
+                                for c in mem] + [z3.IntVal(0)]))
+                eq_or_violation(ctx, 'type-usage', js[g]['consumer_count'],
+                                cnt, 'consumer_count of %s in %s' % (g, qq))
+                for rc in RCS:
+                    presence(ctx, 'type-usage', rc in js[g],
+                             _any(s, rc, mem), '%s in group %s of %s' % (
+                                 rc, g, qq))
+                    if rc in js[g]:
+                        eq_or_violation(ctx, 'type-usage', js[g][rc],
+                                        _tot(s, rc, mem),
+                                        'total %s of group %s in %s'
+                                        % (rc, g, qq))
+            if set(js) - {'INSTANCE', 'unknown', 'all'}:
+                runner.violation(ctx, 'type-usage', 'unknown groups %s in %s'
+                                 % (sorted(js), qq))
+
+
+OWNERSHIPS = [
+    {},                                                  # one project
+    {2: ('proj3', 'user2', None)},     # project id without a user id
+    {1: ('proj2', 'user', 'INSTANCE'), 2: ('proj3', 'user', None)},
+    {1: ('proj3', 'user2', 'INSTANCE'), 2: ('proj3', 'user2', 'INSTANCE')},
+]
 
 
 READS = dict(provider=read_provider, inventories=read_inventories,
@@ -402,7 +430,9 @@ def fam_read(name):
     def path(ctx):
         app.setup()
         app.sym_minor(ctx)
-        with S(ctx) as s:
+        owners = OWNERSHIPS[symex.choose(len(OWNERSHIPS))] \
+            if name in ('allocations', 'totals') else None
+        with S(ctx, owners) as s:
             pre = s.w.dump()
             fn(ctx, s)
             post = s.w.dump()
